@@ -18,6 +18,17 @@ From AgileV Require Import Evo.Heap Evo.Evo C02.Model.
 Import ListNotations.
 Open Scope N_scope.
 
+(* lists of small numbers cross into Coq packed ten to a binary number (20 bits per element, element + 1, least
+   significant first): ten times fewer syntax nodes to elaborate *)
+Fixpoint unpack_f (fuel : nat) (x : N) : list N :=
+  match fuel with
+  | O => []
+  | S f => if N.eqb x 0 then [] else N.pred (N.land x 1048575) :: unpack_f f (N.shiftr x 20)
+  end.
+Definition unpack (x : N) : list N := unpack_f (S (N.to_nat (N.log2 x / 20))) x.
+
+Definition unpacks (l : list N) : list N := flat_map unpack l.
+
 (* descriptor transition of one evaluation network under an architecture mutation: (id before, id after) of the
    sub-configuration the method addresses, and (id before, id after) of the whole descriptor *)
 Record atrans := mkAT { at_sub : N * N; at_full : N * N }.
@@ -39,20 +50,19 @@ Definition arch_follow_ok (f : afollow) : bool :=
   else
     forallb (fun t => N.eqb (fst (at_full t)) (snd (at_full t))) (af_others f).
 
-Fixpoint index_of (l : loc) (ls : list loc) (k : nat) : option nat :=
+Fixpoint index_of (l : loc) (ls : list loc) (k : N) : option N :=
   match ls with
   | [] => None
-  | x :: r => if N.eqb x l then Some k else index_of l r (S k)
+  | x :: r => if N.eqb x l then Some k else index_of l r (N.succ k)
   end.
-Definition memnat (n : nat) (l : list nat) : bool := existsb (Nat.eqb n) l.
 
 (* every cell referenced by an optimizer of member i is among the slots whose observed value changed *)
-Definition learn_moves_ok (w : world) (i : nat) (changed : list nat) : bool :=
+Definition learn_moves_ok (w : world) (i : nat) (changed : list N) : bool :=
   match nth_error (w_pop w) i with
   | None => false
   | Some a =>
       forallb (fun o => forallb (fun l => match index_of l (all_locs w) 0 with
-                                          | Some k => memnat k changed
+                                          | Some k => mem k changed
                                           | None => false
                                           end) (o_refs o)) (a_opts a)
   end.
@@ -60,16 +70,6 @@ Definition learn_moves_ok (w : world) (i : nat) (changed : list nat) : bool :=
 (* the observed population is transmitted incrementally: a step that can only have changed one member (training)
    carries that member's new observation, the others keep theirs.  Alias classes are numbered per CASE (stable
    identifiers of the observed objects), so observations taken at different steps can be put side by side. *)
-(* lists of small numbers cross into Coq packed ten to a binary number (20 bits per element, element + 1, least
-   significant first): ten times fewer syntax nodes to elaborate *)
-Fixpoint unpack_f (fuel : nat) (x : N) : list N :=
-  match fuel with
-  | O => []
-  | S f => if N.eqb x 0 then [] else N.pred (N.land x 1048575) :: unpack_f f (N.shiftr x 20)
-  end.
-Definition unpack (x : N) : list N := unpack_f (S (N.to_nat (N.log2 x / 20))) x.
-
-Definition unpacks (l : list N) : list N := flat_map unpack l.
 Definition entry := (aobs * list N * list N)%type.          (* structure, packed alias classes, packed value classes *)
 Inductive change := Full (p : list entry) | Upd (us : list (nat * entry)).
 Definition apply_change (c : change) (p : list entry) : list entry :=
@@ -80,11 +80,11 @@ Definition apply_change (c : change) (p : list entry) : list entry :=
 Definition to_obs (p : list entry) : obs :=
   mkObs (concat (map (fun e => unpacks (snd (fst e))) p)) (concat (map (fun e => unpacks (snd e)) p)) (map (fun e => fst (fst e)) p).
 
-Record gstep := mkG { gs_ops : list op; gs_obs : change; gs_learn : option (nat * list nat); gs_arch : list afollow }.
+Record gstep := mkG { gs_ops : list op; gs_obs : change; gs_learn : option (nat * list N); gs_arch : list afollow }.
 
 Definition gstep_flags (w' : world) (g : gstep) : bool :=
   all_coherent_b w' &&
-  match gs_learn g with Some (i, ch) => learn_moves_ok w' i ch | None => true end &&
+  match gs_learn g with Some (i, ch) => learn_moves_ok w' i (unpacks ch) | None => true end &&
   forallb arch_follow_ok (gs_arch g).
 
 Fixpoint check_gsteps (w : world) (p : list entry) (gs : list gstep) (m : PositiveMap.t N) : bool :=
@@ -116,7 +116,7 @@ Fixpoint first_bad2 (w : world) (p : list entry) (gs : list gstep) (m : Positive
       match state_ok w' (to_obs p') m with
       | Some m' =>
           if negb (all_coherent_b w') then (k, 1%nat)
-          else if negb (match gs_learn g with Some (i, ch) => learn_moves_ok w' i ch | None => true end) then (k, 2%nat)
+          else if negb (match gs_learn g with Some (i, ch) => learn_moves_ok w' i (unpacks ch) | None => true end) then (k, 2%nat)
           else if negb (forallb arch_follow_ok (gs_arch g)) then (k, 3%nat)
           else first_bad2 w' p' r m' (S k)
       | None => (k, 0%nat)
